@@ -60,3 +60,33 @@ fn attack_line_1x1() {
 pub fn c13_p_iccma_attack_line() {
     attack_line_1x1();
 }
+
+/// `p af 2`, then the attack line `<t> 2` where t is ONE symbolic byte that is neither white space nor a line
+/// terminator nor '#': the line structure stays concrete, only the token's value is symbolic
+fn attack_token() {
+    let a = nd::ascii_byte(b"0123+-9a");
+    nd::assume(a > b' ' && a != b'#' && a < 127);
+    let buf = [b'p', b' ', b'a', b'f', b' ', b'2', b'\n', a, b' ', b'2', b'\n'];
+    let reader = Iccma23Reader::default();
+    let r = reader.read(&mut &buf[..]);
+    let well_formed = a == b'1' || a == b'2';
+    match &r {
+        Ok(af) => {
+            require!(well_formed, "C13: an attack line whose index is out of range or not a number is rejected");
+            require!(af.n_arguments() == 2 && af.n_attacks() == 1, "C13: exactly the declared arguments and attacks");
+            let att = af.iter_attacks().next().unwrap();
+            require!(*att.attacker().label() == (a - b'0') as usize && *att.attacked().label() == 2, "C13: the declared attack is read with the right endpoints");
+        }
+        Err(_) => require!(!well_formed, "C13: every well-formed file is accepted"),
+    }
+    std::mem::forget(r);
+}
+
+#[cfg_attr(kani, kani::proof)]
+#[cfg_attr(kani, kani::stub(alloc::fmt::format, crate::util::fmt_stub))]
+#[cfg_attr(kani, kani::stub(std::backtrace::Backtrace::capture, crate::util::bt_stub))]
+#[cfg_attr(kani, kani::stub(<anyhow::Error as std::ops::Drop>::drop, crate::util::noop_err_drop))]
+#[cfg_attr(kani, kani::unwind(14))]
+pub fn c13_p2_iccma_attack_token() {
+    attack_token();
+}
